@@ -40,10 +40,13 @@ type Dg struct {
 }
 
 type Ev struct {
-	Kind string `json:"k"` // "hs", "age", "dg"
+	Kind string `json:"k"` // "hs", "age" (keypair creation moved Secs s + Ms ms into the past), "idle" (Ms ms of real time pass), "dg"
 	Peer int    `json:"peer,omitempty"`
 	Secs int    `json:"secs,omitempty"`
-	Dgs  []Dg   `json:"dgs,omitempty"`
+	Ms   int    `json:"ms,omitempty"`
+	// MaxLateMs: the step is only valid if it starts at most this many ms after the preceding "age" event
+	MaxLateMs int  `json:"max_late_ms,omitempty"`
+	Dgs       []Dg `json:"dgs,omitempty"`
 	// observed / oracle
 	DevIdx uint32   `json:"dev_idx,omitempty"`
 	Serial int      `json:"serial,omitempty"`
@@ -58,6 +61,21 @@ type Scenario struct {
 	BindBatch int           `json:"bind_batch"`
 	Evs       []Ev          `json:"evs"`
 	Discarded string        `json:"discarded,omitempty"`
+	Kind      string        `json:"kind,omitempty"` // "" or "crashed"
+	Crash     string        `json:"crash,omitempty"`
+	Solo      bool          `json:"solo,omitempty"` // runs in a process of its own (it sleeps)
+}
+
+var poisoned bool
+
+func closeWorld(w *cosim.World) {
+	done := make(chan struct{})
+	go func() { w.Close(); close(done) }()
+	select {
+	case <-done:
+	case <-time.After(3 * time.Second):
+		poisoned = true
+	}
 }
 
 const limit = uint64(device.RejectAfterMessages)
@@ -86,8 +104,9 @@ func run(sc *Scenario) {
 		sc.Discarded = "world: " + err.Error()
 		return
 	}
-	defer w.Close()
+	defer closeWorld(w)
 	var sessions []*sess
+	aged := time.Now()
 	rxOf := func() []uint64 {
 		o := make([]uint64, sc.NPeers)
 		for i, p := range peers {
@@ -123,8 +142,32 @@ func run(sc *Scenario) {
 			ev.Serial = len(sessions)
 			ev.DevIdx = s.RemoteIdx
 		case "age":
-			w.Dev.VerifShiftKeypairAges(cosim.NoisePK(peers[ev.Peer].Pub), time.Duration(ev.Secs)*time.Second)
+			w.Dev.VerifShiftKeypairAges(cosim.NoisePK(peers[ev.Peer].Pub), time.Duration(ev.Secs)*time.Second+time.Duration(ev.Ms)*time.Millisecond)
+			aged = time.Now()
+		case "idle":
+			// real time passes with the socket idle; the model ages every keypair by Ms, so the
+			// sleep is measured from the last age shift and must not overshoot by much
+			if d := time.Duration(ev.Ms)*time.Millisecond - time.Since(aged); d > 0 {
+				time.Sleep(d)
+			}
+			if over := time.Since(aged) - time.Duration(ev.Ms)*time.Millisecond; over > 500*time.Millisecond {
+				sc.Discarded = fmt.Sprintf("idle step overshot by %v (loaded machine)", over)
+				return
+			}
+			if out := w.Take(); !out.Settled {
+				sc.Discarded = "unsettled"
+				poisoned = true
+				return
+			} else {
+				for _, x := range out.Written {
+					ev.Writes = append(ev.Writes, x.Data)
+				}
+			}
 		case "dg":
+			if ev.MaxLateMs > 0 && time.Since(aged) > time.Duration(ev.MaxLateMs)*time.Millisecond {
+				sc.Discarded = fmt.Sprintf("datagram step started %v after the age shift (loaded machine)", time.Since(aged))
+				return
+			}
 			before := rxOf()
 			var ds []sim.Dgram
 			for di := range ev.Dgs {
@@ -171,6 +214,7 @@ func run(sc *Scenario) {
 			out := w.InjectBatch(ds...)
 			if !out.Settled {
 				sc.Discarded = "unsettled"
+				poisoned = true
 				return
 			}
 			for _, x := range out.Written {
@@ -195,12 +239,12 @@ type gsess struct {
 }
 
 type gen struct {
-	r     *rand.Rand
-	sc    *Scenario
-	all   []*gsess
-	bnd4  [][]byte
-	bnd6  [][]byte
-	big   bool
+	r    *rand.Rand
+	sc   *Scenario
+	all  []*gsess
+	bnd4 [][]byte
+	bnd6 [][]byte
+	big  bool
 }
 
 func (g *gen) srcFor(fam, p int, own bool) []byte {
@@ -510,12 +554,12 @@ func directed() []*Scenario {
 	sc := &Scenario{Gen: "directed-branches", NPeers: 2, BindBatch: 4, Table: tbl}
 	sc.Evs = []Ev{{Kind: "hs", Peer: 0}, {Kind: "hs", Peer: 1},
 		{Kind: "dg", Dgs: []Dg{
-			{Sess: 1, IdxOf: 1, Ctr: 1, Plain: ref.Pad(v4([4]byte{10, 1, 1, 1}, 61))},  // written, padding stripped
-			{Sess: 1, IdxOf: 1, Ctr: 1, Plain: ref.Pad(v4([4]byte{10, 1, 1, 1}, 61))},  // replay
-			{Sess: 1, IdxOf: 1, Ctr: 2, Plain: ref.Pad(v4([4]byte{10, 1, 2, 1}, 40))},  // source belongs to peer 1 (longer prefix)
-			{Sess: 2, IdxOf: 2, Ctr: 1, Plain: ref.Pad(v4([4]byte{10, 1, 2, 1}, 40))},  // same packet through peer 1's session: written
-			{Sess: 2, IdxOf: 2, Ctr: 2, Plain: ref.Pad(v4([4]byte{10, 1, 1, 1}, 40))},  // peer 1 carrying peer 0's source
-			{Sess: 1, IdxOf: 2, Ctr: 3, Plain: ref.Pad(v4([4]byte{10, 1, 1, 1}, 40))},  // peer 0's key under peer 1's index
+			{Sess: 1, IdxOf: 1, Ctr: 1, Plain: ref.Pad(v4([4]byte{10, 1, 1, 1}, 61))}, // written, padding stripped
+			{Sess: 1, IdxOf: 1, Ctr: 1, Plain: ref.Pad(v4([4]byte{10, 1, 1, 1}, 61))}, // replay
+			{Sess: 1, IdxOf: 1, Ctr: 2, Plain: ref.Pad(v4([4]byte{10, 1, 2, 1}, 40))}, // source belongs to peer 1 (longer prefix)
+			{Sess: 2, IdxOf: 2, Ctr: 1, Plain: ref.Pad(v4([4]byte{10, 1, 2, 1}, 40))}, // same packet through peer 1's session: written
+			{Sess: 2, IdxOf: 2, Ctr: 2, Plain: ref.Pad(v4([4]byte{10, 1, 1, 1}, 40))}, // peer 1 carrying peer 0's source
+			{Sess: 1, IdxOf: 2, Ctr: 3, Plain: ref.Pad(v4([4]byte{10, 1, 1, 1}, 40))}, // peer 0's key under peer 1's index
 			{Sess: 1, IdxOf: 1, Ctr: 3, Plain: []byte{}},                              // keepalive
 			{Sess: 1, IdxOf: 1, Ctr: 4, Tamper: 1, Plain: ref.Pad(v4([4]byte{10, 1, 1, 1}, 40))},
 			{Sess: 1, Idx: 12345, Ctr: 4, Plain: ref.Pad(v4([4]byte{10, 1, 1, 1}, 40))},
@@ -584,12 +628,30 @@ func directed() []*Scenario {
 	}
 	sc2.Evs = append(sc2.Evs, ev)
 	out = append(out, sc2)
+	// "live session key" at ARRIVAL time: the key is 179 s old when the socket goes idle, the control datagram
+	// right after the shift is accepted (age ~179.0 s), then 2 s of silence carry the key across RejectAfterTime,
+	// and the first datagram after the gap must be refused (age ~181 s) although the receive routine went to sleep
+	// while the key was live.  The other peer's fresh key is the second control.  Runs in a process of its own.
+	sc3 := &Scenario{Gen: "directed-expiry-after-idle", NPeers: 2, BindBatch: 1, Table: tbl, Solo: true}
+	sc3.Evs = []Ev{{Kind: "hs", Peer: 0}, {Kind: "hs", Peer: 1},
+		{Kind: "dg", Dgs: []Dg{{Sess: 1, IdxOf: 1, Ctr: 1, Plain: ref.Pad(v4([4]byte{10, 1, 1, 1}, 40))}}},
+		{Kind: "age", Peer: 0, Secs: 179},
+		{Kind: "dg", MaxLateMs: 300, Dgs: []Dg{{Sess: 1, IdxOf: 1, Ctr: 2, Plain: ref.Pad(v4([4]byte{10, 1, 1, 1}, 41)), Note: "just-before-expiry"}}},
+		{Kind: "idle", Ms: 2000},
+		{Kind: "dg", Dgs: []Dg{{Sess: 1, IdxOf: 1, Ctr: 3, Plain: ref.Pad(v4([4]byte{10, 1, 1, 1}, 42)), Note: "after-idle-across-expiry"}}},
+		{Kind: "dg", Dgs: []Dg{{Sess: 2, IdxOf: 2, Ctr: 1, Plain: ref.Pad(v4([4]byte{10, 1, 2, 1}, 43)), Note: "other-peer-fresh-key"},
+			{Sess: 1, IdxOf: 1, Ctr: 4, Plain: ref.Pad(v4([4]byte{10, 1, 1, 1}, 44)), Note: "expired-again"}}},
+	}
+	out = append(out, sc3)
 	return out
 }
 
 // ---------------------------------------------------------------- output
 
 func gallina(sc *Scenario) string {
+	if sc.Kind == "crashed" {
+		return "Crashed"
+	}
 	var b strings.Builder
 	fmt.Fprintf(&b, "Scenario [%d;%d] %s %d [", ipv4.HeaderLen, ipv6.HeaderLen, dpath.TableGallina(sc.Table), sc.NPeers)
 	for i, ev := range sc.Evs {
@@ -600,7 +662,14 @@ func gallina(sc *Scenario) string {
 		case "hs":
 			fmt.Fprintf(&b, "RHs %d %d %d", ev.Peer, ev.DevIdx, ev.Serial)
 		case "age":
-			fmt.Fprintf(&b, "RAge %d %d", ev.Peer, ev.Secs)
+			fmt.Fprintf(&b, "RAge %d %d", ev.Peer, ev.Secs*1000+ev.Ms)
+		case "idle": // every keypair of every peer grows older
+			for p := 0; p < sc.NPeers; p++ {
+				if p > 0 {
+					b.WriteString(";")
+				}
+				fmt.Fprintf(&b, "RAge %d %d", p, ev.Ms)
+			}
 		case "dg":
 			b.WriteString("RDg [")
 			for j, d := range ev.Dgs {
@@ -640,12 +709,90 @@ func gallina(sc *Scenario) string {
 			fmt.Fprintf(&b, "%d", x)
 		}
 		b.WriteString("])")
+		if ev.Kind == "idle" { // the expansion above: one (empty) observation per further RAge
+			for p := 1; p < sc.NPeers; p++ {
+				b.WriteString(";([],[")
+				for j := range ev.Rx {
+					if j > 0 {
+						b.WriteString(";")
+					}
+					b.WriteString("0")
+				}
+				b.WriteString("])")
+			}
+		}
 	}
 	b.WriteString("]")
 	return b.String()
 }
 
 const imports = "From WG Require Import Base.Prelude Inbound.Check."
+
+type job struct {
+	name string
+	solo bool
+	run  func() *Scenario
+}
+
+func buildJobs(seed int64, n int, big bool, corpus, replayIn string) []job {
+	var jobs []job
+	fixedJob := func(sc *Scenario) job {
+		return job{sc.Gen, sc.Solo, func() *Scenario {
+			run(sc)
+			if sc.Discarded != "" && !poisoned && replayIn == "" {
+				run(sc) // one retry: a step that did not settle is a harness matter, not a verdict
+			}
+			return sc
+		}}
+	}
+	if replayIn != "" {
+		data, err := os.ReadFile(replayIn)
+		if err != nil {
+			panic(err)
+		}
+		var scs []*Scenario
+		if err := json.Unmarshal(data, &scs); err != nil {
+			panic(err)
+		}
+		for _, sc := range scs {
+			jobs = append(jobs, fixedJob(sc))
+		}
+		return jobs
+	}
+	if corpus != "" {
+		files, _ := filepath.Glob(filepath.Join(corpus, "*.json"))
+		for _, f := range files {
+			data, err := os.ReadFile(f)
+			if err != nil {
+				continue
+			}
+			var cs []*Scenario
+			if json.Unmarshal(data, &cs) == nil {
+				for _, c := range cs {
+					c.Gen = "corpus/" + filepath.Base(f)
+					jobs = append(jobs, fixedJob(c))
+				}
+			}
+		}
+	}
+	jobs = append(jobs, fixedJob(f1Scenario()))
+	for _, sc := range directed() {
+		jobs = append(jobs, fixedJob(sc))
+	}
+	master := rand.New(rand.NewSource(seed)) // ONE PRNG: it deals a seed to every random scenario
+	for i := 0; i < n; i++ {
+		s := master.Int63()
+		jobs = append(jobs, job{"random", false, func() *Scenario {
+			sc := genScenario(rand.New(rand.NewSource(s)), big)
+			run(sc)
+			if sc.Discarded != "" && !poisoned {
+				run(sc)
+			}
+			return sc
+		}})
+	}
+	return jobs
+}
 
 func main() {
 	seed := flag.Int64("seed", 1, "PRNG seed")
@@ -655,51 +802,46 @@ func main() {
 	replayIn := flag.String("replay", "", "JSON file with scenarios (inputs) to re-run")
 	corpus := flag.String("corpus", "", "directory of corpus JSON scenarios to run first")
 	big := flag.Bool("big", false, "thorough tier: larger batches")
+	child := flag.String("child", "", "internal: run jobs lo:hi")
+	childOut := flag.String("childout", "", "internal: result file of a child")
 	flag.Parse()
 	if err := os.MkdirAll(*out, 0o755); err != nil {
 		panic(err)
 	}
-	var scs []*Scenario
-	if *replayIn != "" {
-		data, err := os.ReadFile(*replayIn)
-		if err != nil {
-			panic(err)
-		}
-		if err := json.Unmarshal(data, &scs); err != nil {
-			panic(err)
-		}
-		*shards = 1
-	} else {
-		if *corpus != "" {
-			files, _ := filepath.Glob(filepath.Join(*corpus, "*.json"))
-			for _, f := range files {
-				data, err := os.ReadFile(f)
-				if err != nil {
-					continue
-				}
-				var cs []*Scenario
-				if json.Unmarshal(data, &cs) == nil {
-					for _, c := range cs {
-						c.Gen = "corpus/" + filepath.Base(f)
-						scs = append(scs, c)
-					}
-				}
+	jobs := buildJobs(*seed, *n, *big, *corpus, *replayIn)
+	if *child != "" {
+		lo, hi := dpath.ChildRange(*child)
+		var results []json.RawMessage
+		for i := lo; i < hi && i < len(jobs); i++ {
+			sc := jobs[i].run()
+			data, _ := json.Marshal(sc)
+			results = append(results, data)
+			dpath.ChildWrite(*childOut, results)
+			if poisoned {
+				os.Exit(dpath.ExitPoisoned)
 			}
 		}
-		scs = append(scs, f1Scenario())
-		scs = append(scs, directed()...)
-		r := rand.New(rand.NewSource(*seed))
-		for i := 0; i < *n; i++ {
-			scs = append(scs, genScenario(r, *big))
+		return
+	}
+	solo := map[int]bool{}
+	for i, j := range jobs {
+		if j.solo {
+			solo[i] = true
 		}
 	}
-	discarded := 0
+	raw, crash := dpath.RunChildren(len(jobs), 12, 6, solo, os.Args[1:], *out, 20*time.Second)
+	discarded, crashed := 0, 0
 	var kept []*Scenario
-	for _, sc := range scs {
-		run(sc)
-		if sc.Discarded != "" && *replayIn == "" {
-			// one retry: a step that did not settle is a harness matter, not a verdict
-			run(sc)
+	for i := range jobs {
+		if raw[i] == nil {
+			crashed++
+			fmt.Fprintln(os.Stderr, "crashed:", jobs[i].name, crash[i])
+			kept = append(kept, &Scenario{Kind: "crashed", Gen: jobs[i].name, Crash: crash[i]})
+			continue
+		}
+		sc := &Scenario{}
+		if err := json.Unmarshal(raw[i], sc); err != nil {
+			panic(err)
 		}
 		if sc.Discarded != "" {
 			discarded++
@@ -709,6 +851,9 @@ func main() {
 			}
 		}
 		kept = append(kept, sc)
+	}
+	if *replayIn != "" {
+		*shards = 1
 	}
 	if *shards > len(kept) {
 		*shards = len(kept)
@@ -739,7 +884,7 @@ func main() {
 		infos = append(infos, shardInfo{name, idx, end - idx})
 		idx = end
 	}
-	meta := map[string]any{"seed": *seed, "cases": kept, "shards": infos, "discarded": discarded}
+	meta := map[string]any{"seed": *seed, "cases": kept, "shards": infos, "discarded": discarded, "crashed": crashed}
 	data, _ := json.Marshal(meta)
 	if err := os.WriteFile(filepath.Join(*out, "cases.json"), data, 0o644); err != nil {
 		panic(err)
